@@ -781,8 +781,8 @@ def controls(repo):
     out.append(('missing-newline', text_variant(repo, 'geodepy/gnss.py', "        out.write('%ENDSNX\\n')\n\n    return\n\ndef remove_velocity_sinex", "        out.write('%ENDSNX')\n\n    return\n\ndef remove_velocity_sinex"), 'remove_stns_sinex::<end>'))
     out.append(('column-test-off-by-one', text_variant(repo, 'geodepy/gnss.py', "if j+1 not in skip:", "if j not in skip:"), 'extract::lower::column-test'))
     out.append(('mirror-element', text_variant(repo, 'geodepy/gnss.py', "Q[col+1, row-1] = q3", "Q[col+1, row] = q3"), 'fill::value2'))
-    out.append(('zero-test-field', text_variant(repo, 'geodepy/gnss.py', 'col[3]=="0.00000000000000e+00" and col[4]=="0.00000000000000e+00"',
-                                                'col[3]=="0.00000000000000e+00" and col[3]=="0.00000000000000e+00"'), 'zero-line::5-fields'))
+    out.append(('zero-test-field', text_variant(repo, 'geodepy/gnss.py', 'if all(float(val)==0 for val in col[2:]):',
+                                                'if all(float(val)==0 for val in col[3:]):'), 'zero-line'))
     out.append(('splice-width', text_variant(repo, 'geodepy/gnss.py', "        header = header[:15] + creation_time + header[27:]\n        old_num_params = header[60:65]",
                                              "        header = header[:15] + creation_time + header[28:]\n        old_num_params = header[60:65]"), 'header[15:28]'))
     return out
